@@ -1,7 +1,6 @@
 // Command gen/c04 prints coq/Gen/C04Facts.v from the /repo working tree (terms, never verdicts):
 // the per-tx limit of Nibiru precompile calls and how it is checked, the order of the StateDB calls
-// made by precompile.OnRunStart, which precompile Run methods go through OnRunStart, and the `final`
-// flag the two commit entry points pass to commitCtx.
+// made by precompile.OnRunStart and which precompile Run methods go through OnRunStart.
 package main
 
 import (
@@ -43,31 +42,44 @@ func main() {
 		}
 	}
 
-	// the receiver name is not a fact: "s.x" is printed as "_.x"
-	norm := func(fd *ast.FuncDecl, txt string) string {
-		if fd.Recv != nil && len(fd.Recv.List) > 0 && len(fd.Recv.List[0].Names) > 0 {
-			r := fd.Recv.List[0].Names[0].Name
-			txt = strings.ReplaceAll(" "+txt, " "+r+".", " _.")
-			txt = strings.ReplaceAll(txt, "("+r+".", "(_.")
-			txt = strings.ReplaceAll(txt, ","+r+".", ",_.")
-			txt = strings.ReplaceAll(txt, ">"+r+".", ">_.")
-			txt = strings.TrimPrefix(txt, " ")
-		}
-		return txt
-	}
-	// SavePrecompileCalledJournalChange: statements in order (normalised)
-	var saveStmts []string
-	limitCond := ""
+	// SavePrecompileCalledJournalChange: how the count is compared with the limit (normalised to
+	// "count REL limit"), and whether the journal append and the increment precede the check
+	limitRel := "?"
+	incrBefore, appendBefore := false, false
 	if fd := sf["SavePrecompileCalledJournalChange"]; fd != nil && fd.Body != nil {
+		seenIncr, seenAppend := false, false
+		isCount := func(e ast.Expr) bool {
+			sel, ok := e.(*ast.SelectorExpr)
+			return ok && sel.Sel.Name == "multistoreCacheCount"
+		}
+		isLimit := func(e ast.Expr) bool {
+			id, ok := e.(*ast.Ident)
+			return ok && id.Name == "maxMultistoreCacheCount"
+		}
+		flip := map[string]string{">": "<", "<": ">", ">=": "<=", "<=": ">=", "==": "==", "!=": "!="}
 		for _, st := range fd.Body.List {
 			switch x := st.(type) {
+			case *ast.IncDecStmt:
+				if isCount(x.X) && x.Tok == token.INC {
+					seenIncr = true
+				}
+			case *ast.ExprStmt:
+				if strings.Contains(Nospace(x), ".Journal.append(") {
+					seenAppend = true
+				}
 			case *ast.IfStmt:
-				limitCond = norm(fd, Nospace(x.Cond))
-				saveStmts = append(saveStmts, "if "+limitCond+" {return error}")
-			case *ast.ReturnStmt:
-				saveStmts = append(saveStmts, Nospace(x))
-			default:
-				saveStmts = append(saveStmts, norm(fd, Nospace(st)))
+				if be, ok := x.Cond.(*ast.BinaryExpr); ok {
+					op := be.Op.String()
+					switch {
+					case isCount(be.X) && isLimit(be.Y):
+						limitRel = "count" + op + "limit"
+					case isLimit(be.X) && isCount(be.Y):
+						limitRel = "count" + flip[op] + "limit"
+					}
+					if limitRel != "?" {
+						incrBefore, appendBefore = seenIncr, seenAppend
+					}
+				}
 			}
 		}
 	}
@@ -118,26 +130,6 @@ func main() {
 	}
 	sort.Slice(runs, func(i, j int) bool { return runs[i].recv < runs[j].recv })
 
-	// the `final` argument passed to commitCtx by Commit and by CommitCacheCtx
-	finalArg := func(fn string) string {
-		res := "?"
-		if fd := sf[fn]; fd != nil && fd.Body != nil {
-			ast.Inspect(fd.Body, func(n ast.Node) bool {
-				if call, ok := n.(*ast.CallExpr); ok {
-					if sel, ok := call.Fun.(*ast.SelectorExpr); ok && sel.Sel.Name == "commitCtx" {
-						args := []string{}
-						for _, a := range call.Args {
-							args = append(args, Nospace(a))
-						}
-						res = norm(fd, strings.Join(args, ","))
-					}
-				}
-				return true
-			})
-		}
-		return res
-	}
-
 	strList := func(xs []string) string {
 		q := make([]string, len(xs))
 		for i, x := range xs {
@@ -148,8 +140,9 @@ func main() {
 
 	fmt.Println("From Coq Require Import ZArith String List. Import ListNotations. Open Scope string_scope.")
 	fmt.Printf("Definition max_multistore_cache_count : Z := (%s)%%Z.\n", limit)
-	fmt.Printf("Definition limit_condition : string := %s.\n", CoqString(limitCond))
-	fmt.Printf("Definition save_precompile_stmts : list string := %s.\n", strList(saveStmts))
+	fmt.Printf("Definition limit_relation : string := %s.\n", CoqString(limitRel))
+	fmt.Printf("Definition limit_incr_before_check : bool := %s.\n", CoqBool(incrBefore))
+	fmt.Printf("Definition limit_journaled_before_check : bool := %s.\n", CoqBool(appendBefore))
 	fmt.Printf("Definition on_run_start_statedb_calls : list string := %s.\n", strList(orsCalls))
 	fmt.Println("Definition precompile_run_methods : list (string * bool) := [")
 	for i, r := range runs {
@@ -160,6 +153,4 @@ func main() {
 		fmt.Printf("  (%s, %s)%s\n", CoqString(r.recv), CoqBool(r.uses), sep)
 	}
 	fmt.Println("].")
-	fmt.Printf("Definition commit_args : string := %s.\n", CoqString(finalArg("Commit")))
-	fmt.Printf("Definition commit_cache_ctx_args : string := %s.\n", CoqString(finalArg("CommitCacheCtx")))
 }
